@@ -118,9 +118,9 @@ LIB_VARIANTS = {
                                           '-DMIR_MAX_INSNS_FOR_INLINE=20000', '-DMIR_MAX_INSNS_FOR_CALL_INLINE=5000',
                                           '-DMIR_MAX_FUNC_INLINE_GROWTH=5000', '-DMIR_MAX_CALLER_SIZE_FOR_ANY_GROWTH_INLINE=100000'] + ASAN,
                         only=['mir']),
-    'tsan': dict(cc='clang', flags=['-O1', '-g', '-std=gnu11', '-fsigned-char', '-fPIC', '-w', '-fno-tree-sra', '-fno-ipa-cp-clone', '-fsanitize=thread']),
+    'tsan': dict(cc='clang', flags=['-O1', '-g', '-std=gnu11', '-fsigned-char', '-fPIC', '-w', '-fsanitize=thread']),
     'plain': dict(cc='gcc', flags=['-O2', '-g', '-std=gnu11', '-fsigned-char', '-fPIC', '-w', '-fno-tree-sra', '-fno-ipa-cp-clone', '-DNDEBUG']),
-    'fuzz': dict(cc='clang', flags=['-O1', '-g', '-std=gnu11', '-fsigned-char', '-fPIC', '-w', '-fno-tree-sra', '-fno-ipa-cp-clone',
+    'fuzz': dict(cc='clang', flags=['-O1', '-g', '-std=gnu11', '-fsigned-char', '-fPIC', '-w',
                                     '-fsanitize=fuzzer-no-link,address', '-fno-omit-frame-pointer']),
 }
 LIB_TUS = {'mir': 'mir.c', 'mir-gen': 'mir-gen.c', 'c2mir': 'c2mir/c2mir.c'}
@@ -159,8 +159,22 @@ def build_common():
     return [os.path.join(d, 'runner.o'), os.path.join(d, 'rcglue.o')]
 
 
-def link(out, objs, extra=()):
-    cmd = ['g++', '-o', out] + list(objs) + ASAN + ['-lrapidcheck', '-lm', '-ldl', '-lpthread'] + list(extra)
+def build_common_tsan():
+    d = os.path.join(BUILD, 'common-tsan')
+    srcs = [os.path.join(SRC, 'common', f) for f in ('runner.cc', 'rcglue.cc', 'runner.h', 'cs.h')]
+    h = files_hash(srcs)
+    with Lock('common-tsan'):
+        parallel([
+            lambda: compile_obj(os.path.join(d, 'runner.o'), os.path.join(SRC, 'common', 'runner.cc'),
+                                ['clang++', '-O1', '-g', '-std=gnu++17', '-fsanitize=thread'], h),
+            lambda: compile_obj(os.path.join(d, 'rcglue.o'), os.path.join(SRC, 'common', 'rcglue.cc'),
+                                ['clang++', '-O1', '-g', '-std=gnu++17', '-fsanitize=thread'], h),
+        ])
+    return [os.path.join(d, 'runner.o'), os.path.join(d, 'rcglue.o')]
+
+
+def link(out, objs, extra=(), san=None, cxx='g++'):
+    cmd = [cxx, '-o', out] + list(objs) + (ASAN if san is None else list(san)) + ['-lrapidcheck', '-lm', '-ldl', '-lpthread'] + list(extra)
     stamp_src = ' '.join(cmd) + ''.join(str(os.path.getmtime(o)) for o in objs)
     stamp = hashlib.sha256(stamp_src.encode()).hexdigest()
     sp = out + '.stamp'
